@@ -71,13 +71,15 @@ def entry(src, key):
     end = src.index('\n', k) + 1
     return src[i:end]
 o = ours('tools/props.py'); t = theirs('tools/props.py')
-e = entry(t, pid)
-o = o.rstrip()
-assert o.endswith('}')
-o = o[:-1].rstrip() + '\n' + e.rstrip().rstrip(',') + ',\n}\n'
+for q in [pid] + sys.argv[2:]:
+    e = entry(t, q)
+    o = o.rstrip()
+    assert o.endswith('}')
+    o = o[:-1].rstrip() + '\n' + e.rstrip().rstrip(',') + ',\n}\n'
 open('tools/props.py','w').write(o)
 o = ours('tools/manifest_texts.py'); t = theirs('tools/manifest_texts.py')
-e = entry(t, pid)
-o = o.replace('}\nNOT_YET = {}', e.rstrip().rstrip(',') + ',\n}\nNOT_YET = {}')
+for q in [pid] + sys.argv[2:]:
+    e = entry(t, q)
+    o = o.replace('}\nNOT_YET = {}', e.rstrip().rstrip(',') + ',\n}\nNOT_YET = {}')
 open('tools/manifest_texts.py','w').write(o)
 print('merged shared files for', pid)
